@@ -245,6 +245,20 @@ def run(chk):
     if oom:
         res4 = vlib.correspond(chk, F.harness_mtz_ub(), None, [c[0] for c in oom], timeout=1500)
         report(chk, res4, 'h_mtzfuzz_ub')
+    # read_cif_gz / read_mmjson_gz / read_pdb_gz / read_structure_gz on corrupted gzip containers of the text samples
+    from props import fam_readers, C02
+    gzl = []
+    for (path, ext) in C02.sample_files():
+        kinds = {'.cif': ['cif', 'st'], '.ent': ['cif', 'pdb'], '.pdb': ['pdb', 'st'], '.json': ['json']}.get(ext, [])
+        for kind in kinds:
+            for mode in range(7):
+                for _ in range(1 if quick else 40):
+                    gzl.append('gzfile\t%s %s %d %d' % (kind, path, mode, rng.randint(1, 10 ** 9)))
+    if quick:
+        gzl = rng.sample(gzl, min(len(gzl), 300))
+    res6 = vlib.correspond(chk, fam_readers.harness(), None, gzl, timeout=1500,
+                           env={'ASAN_OPTIONS': 'detect_leaks=0:abort_on_error=0:allocator_may_return_null=1:max_allocation_size_mb=3072'})
+    report(chk, res6, 'h_readers')
     # the first 20 bytes (signature, byte-order stamp, 32/64-bit header offset) against the byte-level model Mtz/Data.v
     from props import fam_mtz, C08
     res5 = vlib.correspond(chk, fam_mtz.harness(), fam_mtz.driver(), C08.first_bytes_cases(rng, 400 if quick else 20000), timeout=600)
@@ -262,11 +276,17 @@ def run(chk):
                 'multi-word corruption through memory / file / gzip streams in both builds: OK|EXC required. '
                 'MemoryStream: random op sequences incl. lengths beyond the end and near 2^64 vs model. gzip: valid single- and '
                 'multi-member files vs the growth-loop model; corrupted ISIZE trailers, every truncation, bit flips: OK|EXC, no timeout. '
+                'read_cif_gz / read_mmjson_gz / read_pdb_gz / read_structure_gz on gzip containers of the text samples: valid, truncated, bit-flipped, ISIZE trailer set to boundary values, extra partial member, text cut before compression, header bytes corrupted: OK|EXC. '
                 'MTZ: 4 valid files x every integer header token x ~25 values, consistent pairs/triples of adjacent length fields, 20 prologue words x 14 values, truncations, seeded random corruptions, 6 reading modes: OK|EXC. '
                 'non-trivial = the reader returned or threw (not skipped)')
     if not proved:
         chk.violate('proof', 'Properties_C03 ' + ','.join(getattr(chk, 'failed_theorems', [])),
                     getattr(chk, 'coq_log_tail', ''), found_input=False)
+
+
+def fam_readers_harness():
+    from props import fam_readers
+    return fam_readers.harness()
 
 
 def fam_mtz_harness():
@@ -276,10 +296,10 @@ def fam_mtz_harness():
 
 def replay(chk, path):
     r = json.load(open(path))['replay']
-    h = fam_mtz_harness() if r.get('harness') == 'h_mtz' else F.harness_mtz() if r.get('harness') == 'h_mtzfuzz' else F.harness_mtz_ub() if r.get('harness') == 'h_mtzfuzz_ub' else F.harness() if r.get('harness') != 'h_map_ub' else F.harness_ub()
+    h = fam_readers_harness() if r.get('harness') == 'h_readers' else fam_mtz_harness() if r.get('harness') == 'h_mtz' else F.harness_mtz() if r.get('harness') == 'h_mtzfuzz' else F.harness_mtz_ub() if r.get('harness') == 'h_mtzfuzz_ub' else F.harness() if r.get('harness') != 'h_map_ub' else F.harness_ub()
     rc, out, err = vlib.run_lines(h, [], inp=(r['line'] + '\n').encode(), timeout=120)
     print('\n'.join(out), err[-2000:], 'rc=%s' % rc)
-    if r.get('harness', '').startswith('h_mtzfuzz'):
+    if r.get('harness', '').startswith('h_mtzfuzz') or r.get('harness') == 'h_readers':
         if rc != 0:
             chk.violate('crash', 'replayed input crashes', err[-2000:])
         return
